@@ -4,6 +4,7 @@ SM = "./pkg/pdfcpu/safemath"
 
 TY = "./pkg/pdfcpu/types"
 FI = "./pkg/filter"
+API = "./pkg/api"
 
 PROPS = {
     "C12": dict(
@@ -45,7 +46,8 @@ PROPS = {
         harnesses=[
             dict(name="VerifFilterRoundTrip", bounds=dict(quick=dict(N=3, PIPE=2), thorough=dict(N=5, PIPE=2)), opts=dict(unwind=300)),
             dict(name="VerifRunLengthRuns", opts=dict(unwind=600)),
-            dict(name="VerifASCII85RoundTrip", bounds=dict(quick=dict(N=2), thorough=dict(N=3)), opts=dict(enc="int", solver="z3-new", timeout_ms=120000, workers=6, unwind=300)),
+            dict(name="VerifASCII85RoundTrip", bounds=dict(quick=dict(N=3), thorough=dict(N=3)), opts=dict(enc="int", solver="z3-new", timeout_ms=120000, workers=4, unwind=300)),
+            dict(name="VerifASCII85Pipelines", bounds=dict(quick=dict(N=1), thorough=dict(N=2)), opts=dict(enc="int", solver="z3-new", timeout_ms=120000, workers=6, unwind=300), thorough_only=True),
         ],
     ),
     "C16": dict(
@@ -67,6 +69,19 @@ PROPS = {
             dict(name="VerifPredictorRow", bounds=dict(quick=dict(C=2, COLORS=2), thorough=dict(C=8, COLORS=4)), opts=dict(unwind=300, timeout_ms=60000)),
             dict(name="VerifPredictorDriver", bounds=dict(quick=dict(C=2, COLORS=2, R=2), thorough=dict(C=3, COLORS=3, R=3)), opts=dict(unwind=300)),
             dict(name="VerifPredictorLZW"),
+        ],
+    ),
+    "C31": dict(
+        pkg=API,
+        explanation="PagesForPageSelection / RemainingPagesForPageRemoval / PagesForPageCollection executed symbolically on selections generated from the grammar (13 term shapes x none/!/n, every number 1-2 symbolic decimal digits, so 0, values beyond the page count and reversed ranges are included) and compared with a left-to-right reference evaluator; the accepted syntax is decided as a regular-language equivalence between the real pattern (Go MatchString search semantics) and the documented grammar by z3's string theory (unbounded in string length)",
+        outside="page counts above the bound P, more than T terms, numbers with more than two digits; Go's regexp engine itself (assumed to implement the pattern it is given); callers that skip ParsePageSelection",
+        assumptions=["regexp/syntax parse tree -> SMT RegLan translation (engine/regexmodel.go); anchors only at branch edges"],
+        harnesses=[
+            dict(name="VerifPageSelection", bounds=dict(quick=dict(P=6, T=1), thorough=dict(P=12, T=1)), opts=dict(unwind=100)),
+            dict(name="VerifPageSelection", bounds=dict(quick=dict(P=1, T=2), thorough=dict(P=3, T=2)), opts=dict(unwind=100), nodiff=True),
+            dict(name="VerifPageRemoval", bounds=dict(quick=dict(P=4), thorough=dict(P=8)), opts=dict(unwind=100)),
+            dict(name="VerifPageCollection", bounds=dict(quick=dict(P=4, T=1), thorough=dict(P=3, T=2)), opts=dict(unwind=100)),
+            dict(name="VerifPageSelectionSyntax", opts=dict(workers=1)),
         ],
     ),
     "C42": dict(
